@@ -1779,6 +1779,44 @@ def rule_locals_defined(ctx, rep: Report, rid="U1", packages=("gtwrap/",), min_f
     rule_no_object_rebound_to_text(ctx, rep, rid, packages=packages, min_functions=0)
 
 
+def _path_lookup_by_evaluation(fn) -> Optional[List[str]]:
+    """Runs find_sub_namespace (the analyser's own interpreter) on a sample namespace tree for paths of length 0 to 3 and
+    compares with what the path denotes; the list of differences, or None when the function cannot be evaluated."""
+    from .rules_matlab import SampleObj, _PathEval, _Raised, mini_exec
+    ps = func_params(fn)
+
+    def ns(name, *content):
+        return SampleObj(__kind__="Namespace", name=name, content=list(content), label=name)
+
+    def cls(name):
+        return SampleObj(__kind__="Class", name=name, content=[], label=name)
+    a1 = ns("a", cls("b"), ns("b", ns("c", cls("K")), cls("c")), cls("K"))
+    a2 = ns("a", ns("b"), ns("d"))
+    c1 = ns("c", ns("c", ns("c", cls("K"))), ns("b"))
+    b1 = ns("b", ns("c"))
+    root = ns("", a1, cls("a"), c1, a2, b1)
+
+    def spec(node, path):
+        if not path:
+            return [node]
+        out = []
+        for ch in node["content"]:
+            if ch.get("__kind__") == "Namespace" and ch["name"] == path[0]:
+                out += spec(ch, path[1:])
+        return out
+    diffs = []
+    try:
+        for path in ([], ["a"], ["b"], ["c"], ["x"], ["a", "b"], ["c", "c"], ["a", "d"], ["b", "c"], ["a", "b", "c"], ["c", "c", "c"], ["a", "c"], ["c", "b", "c"]):
+            got = mini_exec(fn, {ps[0]: root, ps[1]: list(path)}, budget=8000, functions={fn.name: fn})
+            got = list(got) if got is not None else None
+            want = spec(root, path)
+            if got is None or len(got) != len(want) or any(x is not y for x, y in zip(got, want)):
+                diffs.append(f"{'::'.join(path) or '(empty path)'} gives {len(got) if got is not None else 'nothing'} namespace(s), {len(want)} expected")
+    except (_PathEval.Unknown, _Raised, TypeError):
+        return None
+    return diffs
+
+
 def rule_namespace_path_lookup(ctx, rep: Report, rid="V6"):
     """find_sub_namespace(namespace, path) - the walk that typedef resolution and class lookup rely on - returns the
     namespace itself for the empty path, considers *every* nested namespace whose name equals the first component
@@ -1793,6 +1831,13 @@ def rule_namespace_path_lookup(ctx, rep: Report, rid="V6"):
     ps = func_params(fn)
     nsp, pathp = ps[0], ps[1]
     loc = f"{mi.rel}:{fn.lineno}"
+    # decided by evaluation where the function can be run on samples (however it is written: recursive, iterative, comprehensions)
+    verdict = _path_lookup_by_evaluation(fn)
+    if verdict is not None:
+        rep.add(rid, "path lookup:find_sub_namespace:returns exactly the namespaces the path denotes (every re-opened block, no other scope)", not verdict,
+                f"on a sample tree (namespaces a{{b{{c}}}} a{{b{{}}}} c{{c{{c}}}} b{{}}): {verdict[:3]}: a typedef or lookup through such a path is resolved in the wrong "
+                f"scope, or a legal one is rejected ('Cannot find class')", loc)
+        return
     base = [i for i in fn.body if isinstance(i, ast.If) and unparse(i.test).replace(" ", "") in (f"not{pathp}", f"len({pathp})==0", f"{pathp}==[]")
             and len(i.body) == 1 and isinstance(i.body[0], ast.Return) and unparse(i.body[0].value).replace(" ", "") == f"[{nsp}]"]
     rep.add(rid, "path lookup:find_sub_namespace:the empty path denotes the namespace itself", len(base) == 1, "", loc, nontrivial=False)
